@@ -15,6 +15,7 @@ open Sigc.Model Sigc.Spec
 /-- the initial states of the two configurations are related (by the empty id relation) -/
 theorem init_related : Q (fun _ _ => False) ({ k1 := true, k2 := true } : LSt) ({} : LSt) :=
   { T := .nil, S := .nil, G := .nil, C := .nil, K := .nil, sigs := .nil, ownedT := .nil, ownedK := .nil,
+    ownedG := .nil,
     pb := ⟨fun h => h.elim, fun h => h.elim, fun h => h.elim⟩,
     depth := rfl, steps := rfl, trace := rfl, k1 := rfl, k2 := rfl, k1' := rfl, k2' := rfl,
     keys := List.nodup_nil, inv := fun p hp => by simp at hp }
@@ -96,6 +97,29 @@ example : ∃ t u, Spec.runTop 40 exEmpty { k1 := true, k2 := true } exEmpty.top
     rw [hu] at hp
     exact ⟨t, u, rfl, hu, he, by simpa using hs, by simpa using hp⟩
 
+/-- concrete instance with functor-owned signal objects (`exOwnG`: `delG` of an owned list is refused, the last
+    copy of the owning functor is released during an emission of the owned list, which `collect` then destroys by
+    `dropHandle`): same trace, which contains the refusal `owned`; the lists of owned signal objects of the two final
+    states are related up to the id relation (owner id 11 in one, 12 in the other, same name `G2`) -/
+example : ∃ t u, Spec.runTop 40 exOwnG { k1 := true, k2 := true } exOwnG.top = some t ∧
+    Spec.runTop 41 exOwnG {} exOwnG.top = some u ∧ u.trace = t.trace ∧
+    t.trace.any (fun e => match e with | .res _ "delG G0" "owned" => true | _ => false) = true ∧
+    t.ownedG = [(11, 2)] ∧ u.ownedG = [(12, 2)] := by
+  have hs : ((Spec.runTop 40 exOwnG { k1 := true, k2 := true } exOwnG.top).map
+      (fun t => (t.ownedG, t.trace.any (fun e => match e with | .res _ "delG G0" "owned" => true | _ => false))))
+      = some ([(11, 2)], true) := by
+    decide +kernel
+  have hp : ((Spec.runTop 41 exOwnG {} exOwnG.top).map (·.ownedG)) = some [(12, 2)] := by
+    decide +kernel
+  cases ht : Spec.runTop 40 exOwnG { k1 := true, k2 := true } exOwnG.top with
+  | none => rw [ht] at hs; cases hs
+  | some t =>
+    rw [ht] at hs
+    obtain ⟨u, hu, he⟩ := known_eq_pure 40 _ t ht (by decide +kernel)
+    rw [hu] at hp
+    simp only [Option.map, Option.some.injEq, Prod.mk.injEq] at hs hp
+    exact ⟨t, u, rfl, hu, he, hs.2, hs.1, hp⟩
+
 /-- the hypothesis is needed and `clearTop` detects both findings: on the K1 program (an empty slot is connected
     and a deferred sweep drops it) the instrumented run answers `false`, and the two configurations indeed end
     with lists of different lengths (1 entry vs 2) -/
@@ -130,6 +154,16 @@ example : ∃ s u, Model.runTop 40 exEmpty {} exEmpty.top = some s ∧ Spec.runT
   have hs : (Model.runTop 40 exEmpty {} exEmpty.top).isSome = true := by decide +kernel
   obtain ⟨s, hs⟩ := Option.isSome_iff_exists.mp hs
   obtain ⟨u, hu, ha⟩ := model_refines_pure_spec 40 exEmpty s hs (by decide +kernel)
+  exact ⟨s, u, hs, hu, ha⟩
+
+/-- concrete instance with functor-owned signal objects: the mechanism model's run of `exOwnG` (an owned list is
+    destroyed by `collect` during its own emission) terminates (by evaluation) and is allowed by the specification
+    proper -/
+example : ∃ s u, Model.runTop 40 exOwnG {} exOwnG.top = some s ∧ Spec.runTop 41 exOwnG {} exOwnG.top = some u ∧
+    Refine.Allows u.trace s.trace := by
+  have hs : (Model.runTop 40 exOwnG {} exOwnG.top).isSome = true := by decide +kernel
+  obtain ⟨s, hs⟩ := Option.isSome_iff_exists.mp hs
+  obtain ⟨u, hu, ha⟩ := model_refines_pure_spec 40 exOwnG s hs (by decide +kernel)
   exact ⟨s, u, hs, hu, ha⟩
 
 /-- the same sequence of slot invocations (which slots, in which order, nesting, arguments) -/
